@@ -296,3 +296,18 @@ class RuleView:
 
     def floor(self, rid: str, minimum: int) -> None:
         return None
+
+
+def exit_value(p: SymPath) -> Any:
+    """the returned term, decided by the path's own branch conditions where it is one of them (`ok = not full; if ok:
+    ...; return ok` returns the constant the branch taken fixes)"""
+    from ..paths import literal
+
+    if p.exit[0] != "return" or len(p.exit) < 2:
+        return None
+    t = p.exit[1]
+    atom, pol = literal(t)
+    for a, want, _ in p.conds:
+        if a == atom:
+            return ("const", want == pol)
+    return t
